@@ -26,6 +26,8 @@ const (
 
 var libPkgs = []string{pkgAge, pkgSSH, pkgArmor, pkgFormat, pkgStream, pkgBech32, pkgPlugin}
 
+var epochRe = regexp.MustCompile(`@[0-9]+\)`)
+
 var pathRe = regexp.MustCompile(`(?:[A-Za-z0-9_.\-]+/)+([A-Za-z0-9_\-]+)\.`)
 
 // short strips directory parts from package paths inside a printed term so
@@ -35,6 +37,7 @@ func short(s string) string {
 	s = strings.ReplaceAll(s, "math/rand/v2.", "MATHRAND2.")
 	s = strings.ReplaceAll(s, "math/rand.", "MATHRAND.")
 	s = pathRe.ReplaceAllString(s, "$1.")
+	s = epochRe.ReplaceAllString(s, ")")
 	s = strings.ReplaceAll(s, "(*base64.Encoding).EncodeToString((base64.Encoding).Strict(Deref(base64.RawStdEncoding)), ", "b64r(")
 	s = strings.ReplaceAll(s, "(*base64.Encoding).DecodeString((base64.Encoding).Strict(Deref(base64.RawStdEncoding)), ", "b64r.Decode(")
 	return s
